@@ -1,0 +1,18 @@
+//go:build verif
+
+// Contracts for the transport interfaces (read as text by /verif's govc; comment-only).
+// A unary request either succeeds or fails; ghost state records, per target address, that a
+// request was sent and how many requests failed, so that callers' contracts can say "reports
+// success only if no request failed".
+
+package freighter
+
+//@ ghost SpecSentTo map[address.Address]bool
+//@ ghost SpecSendFailed map[address.Address]int
+//@ trusted func (c UnaryClient[RQ, RS]) Send(ctx context.Context, target address.Address, req RQ) (res RS, err error)
+//@   tparams RQ Payload, RS Payload
+//@   ensures SpecSentTo[target] && (forall a address.Address :: a != target ==> SpecSentTo[a] == old(SpecSentTo[a]))
+//@   ensures err != nil ==> SpecSendFailed[target] == old(SpecSendFailed[target]) + 1
+//@   ensures err == nil ==> SpecSendFailed[target] == old(SpecSendFailed[target])
+//@   ensures forall a address.Address :: a != target ==> SpecSendFailed[a] == old(SpecSendFailed[a])
+//@   modifies SpecSentTo, SpecSendFailed
